@@ -700,6 +700,107 @@ func main() {
 		fmt.Fprintf(&b, "def requestSideStartsRequest : List (List UInt8 × Nat) := [%s]\n", strings.Join(rows, ", "))
 	}
 
+	// (c) every `io.LimitReader(r, n+1)` whose limit is a read limit plus one sits under an `if`
+	//     whose condition compares against math.MaxInt64 (n+1 does not wrap around for the
+	//     largest limit there is). 0 = guarded, 2 = not.
+	{
+		var rows []string
+		names := make([]string, 0, len(p.funcs))
+		for name := range p.funcs {
+			names = append(names, name)
+		}
+		sort.Strings(names)
+		for _, name := range names {
+			fn := p.funcs[name]
+			if fn.Body == nil {
+				continue
+			}
+			var stack []ast.Node
+			ast.Inspect(fn.Body, func(n ast.Node) bool {
+				if n == nil {
+					stack = stack[:len(stack)-1]
+					return true
+				}
+				stack = append(stack, n)
+				call, ok := n.(*ast.CallExpr)
+				if !ok || len(call.Args) != 2 {
+					return true
+				}
+				sel, ok := call.Fun.(*ast.SelectorExpr)
+				if !ok || sel.Sel.Name != "LimitReader" {
+					return true
+				}
+				bin, ok := call.Args[1].(*ast.BinaryExpr)
+				if !ok || bin.Op != token.ADD {
+					return true
+				}
+				if lit, ok := bin.Y.(*ast.BasicLit); !ok || lit.Value != "1" {
+					return true
+				}
+				kind := 2
+				for i := len(stack) - 1; i >= 0 && kind == 2; i-- {
+					if ifs, ok := stack[i].(*ast.IfStmt); ok {
+						ast.Inspect(ifs.Cond, func(c ast.Node) bool {
+							if be, ok := c.(*ast.BinaryExpr); ok && be.Op == token.LSS {
+								if s, ok := be.Y.(*ast.SelectorExpr); ok && s.Sel.Name == "MaxInt64" {
+									kind = 0
+								}
+							}
+							return true
+						})
+						break
+					}
+				}
+				rows = append(rows, fmt.Sprintf("(%s, %d)", leanStr(name), kind))
+				return true
+			})
+		}
+		if len(rows) == 0 {
+			miss("io.LimitReader(_, n+1) sites")
+		}
+		fmt.Fprintf(&b, "def limitReaderPlusOneSites : List (List UInt8 × Nat) := [%s]\n", strings.Join(rows, ", "))
+	}
+
+	// (d) sentinel errors (io.EOF, io.ErrUnexpectedEOF, context.Canceled, context.DeadlineExceeded)
+	//     are never compared with == / != : every layer wraps them (a coded error wrapping io.EOF
+	//     is the documented "stream closed" signal), so only errors.Is sees them.
+	{
+		var rows []string
+		names := make([]string, 0, len(p.funcs))
+		for name := range p.funcs {
+			names = append(names, name)
+		}
+		sort.Strings(names)
+		isSentinel := func(e ast.Expr) bool {
+			sel, ok := e.(*ast.SelectorExpr)
+			if !ok {
+				return false
+			}
+			pkg, ok := sel.X.(*ast.Ident)
+			if !ok {
+				return false
+			}
+			switch pkg.Name + "." + sel.Sel.Name {
+			case "io.EOF", "io.ErrUnexpectedEOF", "context.Canceled", "context.DeadlineExceeded":
+				return true
+			}
+			return false
+		}
+		for _, name := range names {
+			fn := p.funcs[name]
+			if fn.Body == nil {
+				continue
+			}
+			ast.Inspect(fn.Body, func(n ast.Node) bool {
+				if be, ok := n.(*ast.BinaryExpr); ok && (be.Op == token.EQL || be.Op == token.NEQ) && (isSentinel(be.X) || isSentinel(be.Y)) {
+					rows = append(rows, leanStr(name))
+				}
+				return true
+			})
+		}
+		fmt.Fprintf(&b, "def directSentinelComparisons : List (List UInt8) := [%s]\n", strings.Join(rows, ", "))
+	}
+
 	b.WriteString("\nend ConnectModel.Gen\n")
 
 	if len(missing) > 0 {
